@@ -4,8 +4,8 @@
    oracle, the refutation of amount binding for the pre-fix code, and the signature
    malleation facts in an abstract prime-order group. *)
 From Coq Require Import String List NArith ZArith Bool Lia ZifyN ZifyNat ZifyBool Znumtheory.
-From MevVerif Require Import lib.Bytes gen.Generated model.Eip712 model.Signer
-  proofs.Bytes_proofs proofs.Eip712_proofs.
+From MevVerif Require Import lib.Bytes lib.Keccak gen.Generated model.Eip712 model.Signer
+  proofs.Bytes_proofs proofs.Keccak_proofs proofs.Eip712_proofs.
 Import ListNotations.
 Open Scope N_scope.
 
@@ -455,6 +455,10 @@ Proof.
     unfold bid_hash in Hh. destruct (parse_amount (b_amt b)) as [A|]; [|discriminate].
     destruct (amount_out_of_range A); [discriminate|]. cbn in E2. discriminate.
 Qed.
+
+(* the one-length premise of the commitment binding holds for the executable Keccak-256 *)
+Example binding_commitment_keccak (cr : crypto) :=
+  verify_preconf_binding keccak256 cr 32%nat keccak256_length.
 
 (* --- the snapshot code did not bind the amount (regression lemma for 7ab670a) ----------------- *)
 Definition with_ds (b : bid) (d s : bytes) : bid :=
